@@ -42,7 +42,7 @@ CATALOGUE = {
     "fido-u2f": [
         "U.sig-missing", "U.x5c-missing", "U.x5c-two", "U.aaguid-nonzero", "U.leaf-rsa", "U.leaf-p384",
         "U.credkey-okp", "U.credkey-rsa", "U.sig-no-reserved-byte", "U.sig-other-rpidhash", "U.sig-other-cdj",
-        "U.sig-other-credid", "U.sig-other-pubkey", "U.sig-other-key"],
+        "U.sig-other-credid", "U.sig-other-pubkey", "U.sig-other-key", "U.sig-other-credid-rawid-follows"],
     "tpm": [
         "T.certinfo-missing", "T.pubarea-missing", "T.alg-missing", "T.x5c-missing", "T.sig-missing", "T.ver-1.2",
         "T.unique-ne-modulus", "T.exponent-ne", "T.type-rsa-key-ec", "T.type-ecc-key-rsa", "T.unique-ne-xy",
@@ -50,7 +50,7 @@ CATALOGUE = {
         "T.extradata-other-hash", "T.name-digest-wrong", "T.name-digest-other-alg", "T.name-prefix-ne-namealg",
         "T.sig-other-key", "T.sig-other-certinfo", "T.cert-v1", "T.subject-nonempty", "T.san-missing",
         "T.san-no-manufacturer", "T.san-no-model", "T.san-no-version", "T.vendor-unknown", "T.eku-missing",
-        "T.eku-other-first", "T.bc-missing", "T.bc-ca-true"],
+        "T.eku-other-first", "T.bc-missing", "T.bc-ca-true", "T.exponent-zero-key-e-ne-default"],
     "apple": ["AP.x5c-missing", "AP.nonce-ext-missing", "AP.nonce-other-authdata", "AP.nonce-other-cdj",
               "AP.certkey-ne-credkey"],
     "android-key": [
@@ -324,6 +324,12 @@ def _attestation_object(b: _Build, att_stmt: dict) -> bytes:
 
 
 def _credential(b: _Build, attestation_object: bytes) -> dict:
+    if b.has("U.sig-other-credid-rawid-follows"):
+        # the signature covers another key handle, and the PublicKeyCredential's own id / rawId name that
+        # other handle too; only the authenticator data still carries the real credential id
+        other = sha256(b"some other key handle" + b.cred.cred_id)
+        return {"id": b64url(other), "raw_id": other, "type": "public-key", "client_data_json": b.cdj,
+                "attestation_object": attestation_object, "transports": None}
     return {"id": _credential_id_text(b), "raw_id": b.cred.cred_id,
             "type": "other" if b.has("R.cred-type") else "public-key",
             "client_data_json": b.cdj, "attestation_object": attestation_object, "transports": None}
@@ -416,11 +422,15 @@ def _u2f_public_key(pub) -> bytes:
     return pub.public_bytes(serialization.Encoding.Raw, serialization.PublicFormat.Raw)
 
 
+def _other_key_handle(b: _Build) -> bytes:
+    return sha256(b"some other key handle" + b.cred.cred_id)
+
+
 def _u2f_verification_data(b: _Build) -> bytes:
     reserved = b"" if b.has("U.sig-no-reserved-byte") else b"\x00"
     rp_id_hash = sha256(b"some other application") if b.has("U.sig-other-rpidhash") else _rp_id_hash(b)
     cdj = _other_cdj(b) if b.has("U.sig-other-cdj") else b.cdj
-    cred_id = sha256(b"some other key handle" + b.cred.cred_id) if b.has("U.sig-other-credid") else b.cred.cred_id
+    cred_id = _other_key_handle(b) if b.has("U.sig-other-credid") or b.has("U.sig-other-credid-rawid-follows") else b.cred.cred_id
     pub = _other_key(b.cred.priv).public_key() if b.has("U.sig-other-pubkey") else b.cred.pub
     return reserved + rp_id_hash + sha256(cdj) + cred_id + _u2f_public_key(pub)
 
@@ -472,6 +482,10 @@ def _tpm_rsa_pub_area(b: _Build, pub) -> bytes:
     exponent = 0 if e == 65537 else e                  # TPMs write 0 for the default exponent 2^16+1
     if b.has("T.exponent-ne"):
         exponent = 3 if e != 3 else 5
+    if b.has("T.exponent-zero-key-e-ne-default"):
+        if e == 65537:
+            raise NotApplicable("needs a credential key whose exponent is not 2^16+1")
+        exponent = 0                                   # "0" means 65537, which is not this key's exponent
     size = b.cred.pad_to or (n.bit_length() + 7) // 8
     return tpm.encode_pub_area("rsa", name_alg=b.req.tpm_name_alg, key_bits=pub.key_size, exponent=exponent,
                                modulus=n.to_bytes(size, "big"))
